@@ -70,6 +70,10 @@ def tasks(tier, seed):
         T.append(('bc', d, order, 'dirichlet', False, st, None))
     for d, steps in ((1, [-2, 0, 1]), (1, [-1, 0, 2, 3]), (2, [-1, 0, 1, 2]), (1, [-3, -1, 0, 1]), (1, [0, 1, -1]), (1, [1, 2, -1, 0])):
         T.append(('bc', d, len(steps) - d, 'dirichlet', False, None, steps))
+    # Neumann data with an explicitly given order of the one-sided closure (above and below the interior order)
+    for d, order, nbo in ((2, 2, 3), (2, 2, 1), (2, 4, 5), (2, 4, 2), (1, 2, 3)):
+        for bc in ('neumann', ['dirichlet', 'neumann']):
+            T.append(('bc', d, order, bc, False, 'center', None, nbo))
     T.append(('bcdefaults',))
     T.append(('kron', 2))
     T.append(('kron', 3))
@@ -236,9 +240,10 @@ def periodic_case(rep, d, order, st, steps):
     rep.sample({'case': name, 'sizes': [width, width + 1, width + 3], 'free_variables': 'arbitrary grid function values in [-1,1]'}, limit=10)
 
 
-def bc_case(rep, d, order, bc, reduce, st='center', steps=None):
+def bc_case(rep, d, order, bc, reduce, st='center', steps=None, nbo=None):
     bcn = bc if isinstance(bc, str) else '-'.join(bc)
-    name = f'bc/d{d}/o{order}/{bcn}/reduce{int(reduce)}' + ('' if st == 'center' and steps is None else f'/{st or "steps" + ",".join(map(str, steps))}')
+    name = f'bc/d{d}/o{order}/{bcn}/reduce{int(reduce)}' + ('' if st == 'center' and steps is None else f'/{st or "steps" + ",".join(map(str, steps))}') + (f'/nbo{nbo}' if nbo is not None else '')
+    extra = {} if nbo is None else {'neumann_bc_order': nbo}  # order of the one-sided closure for Neumann data, given explicitly
     bct = bc if isinstance(bc, str) else tuple(bc)
     bcl = (bct, bct) if isinstance(bct, str) else bct
     w, s = get_finite_difference_stencil(derivative=d, order=order, stencil_type=st, steps=(np.array(steps) if steps is not None else None))
@@ -246,9 +251,9 @@ def bc_case(rep, d, order, bc, reduce, st='center', steps=None):
     dx = 0.25
     for size in (width + 1, width + 3):
         try:
-            A, b0 = real_matrix(d, order, st, steps, size, 1, bct, bc_params={'val': 0.0, 'reduce': reduce}, dx=dx)
-            _, bL = real_matrix(d, order, st, steps, size, 1, bct, bc_params=[{'val': 1.0, 'reduce': reduce}, {'val': 0.0, 'reduce': reduce}], dx=dx)
-            _, bR = real_matrix(d, order, st, steps, size, 1, bct, bc_params=[{'val': 0.0, 'reduce': reduce}, {'val': 1.0, 'reduce': reduce}], dx=dx)
+            A, b0 = real_matrix(d, order, st, steps, size, 1, bct, bc_params={'val': 0.0, 'reduce': reduce, **extra}, dx=dx)
+            _, bL = real_matrix(d, order, st, steps, size, 1, bct, bc_params=[{'val': 1.0, 'reduce': reduce, **extra}, {'val': 0.0, 'reduce': reduce, **extra}], dx=dx)
+            _, bR = real_matrix(d, order, st, steps, size, 1, bct, bc_params=[{'val': 0.0, 'reduce': reduce, **extra}, {'val': 1.0, 'reduce': reduce, **extra}], dx=dx)
         except Exception as e:
             rep.extra['bc_not_constructible'] = rep.extra.get('bc_not_constructible', 0) + 1
             continue
@@ -272,7 +277,7 @@ def bc_case(rep, d, order, bc, reduce, st='center', steps=None):
                     deg = d + 1 if d % 2 == 1 else d + 1
                     deg = min(d + 1, d + order - 1)
                 if 'neumann' in bcn:
-                    deg = min(deg, order)
+                    deg = min(deg, order if nbo is None else nbo)
             if deg < d:
                 continue
             a, val = poly_terms(deg, [])
@@ -302,7 +307,7 @@ def bc_case(rep, d, order, bc, reduce, st='center', steps=None):
                 if dev > 1e-8 * float(scale):
                     key = f'{PID}/reduced-closure-misaligned/d{d}' if (reduce and d >= 3 and label == 'boundary') else f'{PID}/boundary-closure/{bcn}/reduce{int(reduce)}/{label}'
                     rep.violation(key, f'{name}/N{size}/{label}: degree-{deg} polynomial {coefs}: deviation {dev:.3e}',
-                                  {'task': ['bc', d, order, bc, reduce], 'size': size, 'coefficients': coefs, 'deviation': float(dev)})
+                                  {'task': ['bc', d, order, bc, reduce, st, steps, nbo], 'size': size, 'coefficients': coefs, 'deviation': float(dev)})
                 else:
                     rep.unreproduced(f'{name}/N{size}/{label}', {'coefs': coefs, 'dev': float(dev)})
     rep.sample({'case': name, 'free_variables': 'polynomial coefficients in [-1,1] (grid values and boundary data derived from them)'}, limit=10)
